@@ -272,6 +272,58 @@ def run_case(job):
     return 'options %s: %r gives %r, the text denotes %r' % (o, text, got, full_want)
 
 
+_SPAN_P = []
+
+
+def span_check(items, text):
+    """a list whose items are words and one-line text literals << ... >> (a 'span' token, like the /* */ comments
+    between them): every item is exactly its own text"""
+    from ak import llparser
+    if not _SPAN_P:
+        _SPAN_P.append(llparser.LLParser(
+            r"(?P<SPACE>\s+)|(?P<COMMENT>/\*)|(?P<TXT><<)|(?P<WORD>[a-z][a-z0-9]*)|(?P<COMMA>,)|(?P<BO>\[)|(?P<BC>\])|(?P<CO>\{)|(?P<CC>\})|(?P<COLON>:)",
+            synonyms={'COMMA': ',', 'BO': '[', 'BC': ']', 'CO': '{', 'CC': '}', 'COLON': ':'},
+            span_matchers={'COMMENT': r"(?P<END_COMMENT>(\*[^/]|[^*])*)\*/", 'TXT': r"(?P<END_TXT>(>[^>]|[^>])*)>>"},
+            productions={'E': [('LIST',)], 'VALUE': [('WORD',), ('TXT',), ('LIST',), ('MAP',)],
+                         'LIST': llparser.ListProds('[', 'VALUE', ',', ']'),
+                         'MAP': llparser.MapProds('{', 'WORD', ':', 'VALUE', ',', '}')}))
+    try:
+        got = unwrap(_SPAN_P[0].parse(text))
+    except Exception as e:
+        return 'list with text literals %r raised %s' % (text, type(e).__name__)
+    while isinstance(got, tuple) and len(got[2]) == 1:
+        got = got[2][0]
+    return None if got == items else 'list with text literals %r gives %r, the text denotes %r' % (text, got, items)
+
+
+def span_cases(rnd, n):
+    out = []
+    bodies = ['one', 'x y', '', 'two > three', 'a, b]']
+    comments = ['', '/* c */ ', '/* first\n second */ ', '/**/', '/* << not a literal >> */\n']
+    for k in range(n):
+        items, parts = [], []
+        for _ in range(rnd.randrange(1, 5)):
+            kind = rnd.randrange(4)
+            pre = rnd.choice(comments)
+            if kind == 0:
+                w = rnd.choice(['a', 'bb', 'c1'])
+                items.append(w)
+                parts.append(pre + w)
+            elif kind == 3:
+                b = rnd.choice(bodies)
+                items.append({'__dict__': [['k', b], ['m', [b, 'a']]]})
+                parts.append(pre + '{k: <<%s>>, %sm: [<<%s>>, a]}' % (b, rnd.choice(comments), b))
+            else:
+                b = rnd.choice(bodies)
+                items.append(b)
+                parts.append(pre + '<<' + b + '>>')
+        text = '[' + rnd.choice([', ', ',\n', ' , ']).join(parts) + rnd.choice(['', ' ', ' /* end */ ']) + ']'
+        prob = span_check(items, text)
+        if prob:
+            out.append(({'span_items': items, 'text': text}, prob, []))
+    return out
+
+
 def seq_cases(rnd, n):
     """ProdSequence of terminals: any order, any length"""
     from ak import llparser
@@ -380,6 +432,10 @@ def run(ctx):
             ctx.violation({'case': json.loads(c) if isinstance(c, str) else c, 'seed': seed}, prob)
     for case, prob, tags in seq_cases(ctx.rnd, 300 if ctx.quick else 5000):
         ctx.violation(case, prob, tags)
+    n_span = 400 if ctx.quick else 6000
+    for case, prob, tags in span_cases(ctx.rnd, n_span):
+        ctx.violation(case, prob, tags)
+    ctx.extra['lists_with_span_token_items'] = n_span
     bad = json.loads(json.dumps(next(c for c in cases if isinstance(c, dict) and c['expect']['t'] == 'list' and c['expect']['es'] and not c['bad']
                                      and c['opt']['top'] == 'value')))
     bad['expect']['es'] = bad['expect']['es'] + [{'t': 'str', 's': 'zz'}]
@@ -403,6 +459,8 @@ def replay(ctx, case):
             if c.get('seq2') == case['seq2']:
                 return prob
         return None
+    if 'span_items' in case:
+        return span_check(case['span_items'], case['text'])
     if 'seq3' in case:
         return seq3_check([tuple(e) for e in case['seq3']], case['text'])
     if 'seq' in case:
